@@ -109,3 +109,119 @@ pub fn spec_c04() -> PropSpec {
         decode: None,
     }
 }
+
+
+/// C04 inside fixpoint cycles: max-plus programs whose functions read untracked cells only while
+/// their accumulated value is still small (typically in the first iterations), histories that
+/// change the cells. The final value of a cycle can depend on a cell that its last iteration did
+/// not read; the reference is the least fixpoint for the current cells.
+pub fn spec_c04_lat() -> PropSpec {
+    let mut pf = Profile::base();
+    pf.lattice = true;
+    pf.maxplus_pct = 100;
+    pf.durs = [6, 1, 1, 0];
+    pf.max_slots = 2;
+    pf.max_cells = 2;
+    pf.steps = [10, 4, 1, 7, 0, 0, 0, 0, 1];
+    pf.max_steps = 24;
+    pf.min_steps = 4;
+    pf.episode_pct = 8;
+    PropSpec {
+        id: "C04",
+        profile: pf,
+        tape_len: 300,
+        make: || vec![Box::new(LostUntrackedKf::new(Box::new(super::cyc::CycKf::new(Box::new(ValueOracle::new())))))],
+        nt_rule: "",
+        engine: "seqlat",
+        runner: None,
+        decode: None,
+    }
+}
+
+
+/// Listed finding cyc-kf3: a function inside a fixpoint cycle reads untracked state (in any
+/// iteration). Every function with cycle recovery that takes part in the cycle (heads and plain
+/// members alike) stores flattened dependencies: the edges of everything it reached, but not the
+/// untracked flags of those functions. Such a function other than the reader is therefore
+/// validated in later revisions although the untracked state changed. (The reader's own memo
+/// keeps the flag, also from an early iteration to the final one when it is a head itself.)
+/// Signature, from the body log of one step in which a cycle was iterated: some function
+/// completed an execution with an untracked read and some other function with cycle recovery
+/// completed an execution.
+pub const KF_LOST_UNTRACKED: &str = "kf:untracked-read-of-cycle-member-in-early-iteration-forgotten";
+
+pub struct LostUntrackedKf {
+    inner: Box<dyn Oracle>,
+    tainted: bool,
+    early_only_head: u32,
+}
+
+impl LostUntrackedKf {
+    pub fn new(inner: Box<dyn Oracle>) -> Self {
+        LostUntrackedKf { inner, tainted: false, early_only_head: 0 }
+    }
+}
+
+impl Oracle for LostUntrackedKf {
+    fn step(&mut self, cx: &StepCtx) -> Vec<Violation> {
+        let mut heads: std::collections::BTreeSet<LKey> = Default::default();
+        let mut runs: std::collections::BTreeMap<LKey, Vec<bool>> = Default::default();
+        for r in cx.recs {
+            match r {
+                Rec::Ev(_, Ev::WillIterate(dk, _)) | Rec::Ev(_, Ev::DidFinalize(dk, _)) => {
+                    if let Some(l) = cx.ix.dk2l.get(dk) {
+                        heads.insert(*l);
+                    }
+                }
+                Rec::End(rec) => runs.entry(rec.key).or_default().push(rec.untracked),
+                _ => {}
+            }
+        }
+        // every function that completed an iteration as a cycle head, nested heads included
+        // (guarded trace hook in `try_complete_cycle_head`)
+        for h in cx.hooks {
+            if let salsa::verif_hooks::TraceEvent::CycleHead { ingredient, key, .. } = h {
+                for (dk, l) in cx.ix.dk2l.iter() {
+                    if dk.id == *key && format!("{:?}", dk.ing) == format!("IngredientIndex({ingredient})") {
+                        heads.insert(*l);
+                    }
+                }
+            }
+        }
+        for (k, v) in &runs {
+            let early_only = v.len() >= 2 && v[..v.len() - 1].iter().any(|u| *u) && !v[v.len() - 1];
+            if heads.contains(k) && early_only {
+                self.early_only_head += 1;
+            }
+            // a function read untracked state while a cycle was iterated in which some OTHER
+            // function with cycle recovery ran: that function's flattened dependencies do not
+            // carry the flag
+            let other_recovering = runs.keys().any(|o| o != k && matches!(o, LKey::Node(n, _) if matches!(cx.case.prog.nodes[*n as usize].kind, Kind::Fix | Kind::FixJoin | Kind::Fall | Kind::Div)));
+            if v.iter().any(|u| *u) && !heads.is_empty() && other_recovering {
+                self.tainted = true;
+            }
+        }
+        let mut v = self.inner.step(cx);
+        if self.tainted {
+            for x in v.iter_mut() {
+                if x.rule == "value-mismatch" {
+                    x.rule = KF_LOST_UNTRACKED.to_string();
+                }
+            }
+        }
+        v
+    }
+    fn finish(&mut self, case: &Case, ix: &Index) -> Vec<Violation> {
+        self.inner.finish(case, ix)
+    }
+    fn labels(&self) -> Vec<&'static str> {
+        let mut l = self.inner.labels();
+        if self.tainted {
+            l.push("kf-untracked-read-of-member-in-early-iteration");
+        }
+        if self.early_only_head > 0 {
+            l.push("head-read-untracked-state-in-early-iteration-only");
+        }
+        l
+    }
+}
